@@ -39,7 +39,10 @@ def main():
         checks = args[args.index("--checks") + 1].split(",")
     wt = Path(f"/tmp/seedcheck_{prop}_{os.getpid()}")
     sh(["git", "-C", "/repo", "worktree", "add", "-q", "--detach", str(wt), "HEAD"])
-    env = dict(os.environ, PYTHONPATH=str(wt / "src"))
+    scratch = Path(f"/tmp/seedcheck_out_{prop}_{os.getpid()}")
+    (scratch / "replays").mkdir(parents=True, exist_ok=True)
+    env = dict(os.environ, PYTHONPATH=str(wt / "src"), VERIF_EVIDENCE_DIR=str(scratch / "evidence"),
+               VERIF_REPLAYS_DIR=str(scratch / "replays"))
     result = dict(property=prop, repo_head=sh(["git", "-C", "/repo", "rev-parse", "--short", "HEAD"])[1].strip())
     try:
         demo = out / "demo.py"
@@ -73,13 +76,15 @@ def main():
             # keep the replay the check wrote, next to the seed
             for l in lines:
                 if l.startswith("VIOLATION") and "replay=" in l:
-                    rp = VERIF / l.split("replay=")[1].split()[0]
+                    rp = Path(l.split("replay=")[1].split()[0])
+                    rp = rp if rp.is_absolute() else VERIF / rp
                     if rp.exists():
                         result["checks"][c]["replay_excerpt"] = rp.read_text()[:1500]
         result["caught_by"] = [c for c, r in result["checks"].items() if r["exit"] == 1]
     finally:
         sh(["git", "-C", "/repo", "worktree", "remove", "--force", str(wt)])
         shutil.rmtree(wt, ignore_errors=True)
+        shutil.rmtree(scratch, ignore_errors=True)
     dest = VERIF / "seeded" / (args[args.index("--dest") + 1] if "--dest" in args else prop)
     k = 1
     while dest.exists() and "--overwrite" not in args and "--dest" not in args:
